@@ -271,6 +271,7 @@ CHECKS = {
     'C01': {
         'level': 'model_checking',
         'jobs': [
+            C('req', 'TestReq', 'TraceReq', n={'quick': 10, 'thorough': 200}),   # retransmissions carry the bytes that were sent (byte-slice API, reused buffers)
             T('MC_Wire', 'Wire.cfg', workers=4), T('MC_Link', 'Link.cfg', workers=4),
             C('link', 'TestLinkReal', 'TraceLink', trivial_len=4),
             C('wire', 'TestWire', 'TraceWire', n={'quick': 60, 'thorough': 800}, trivial_len=3),
